@@ -10,6 +10,7 @@ import (
 	"strings"
 
 	"golang.org/x/tools/go/packages"
+	"golang.org/x/tools/go/ssa"
 	"golang.org/x/tools/go/types/typeutil"
 )
 
@@ -697,4 +698,47 @@ func (P *Program) DeclaredFuncKeys() []string {
 		}
 	}
 	return SortedKeys(set)
+}
+
+// PruneUncalled drops from the function list the declared functions selected by cand that
+// no call-graph edge reaches any more (helpers whose every call was inlined): dead code
+// cannot violate anything, and who-may-call rules must not see the left-over body.
+func (P *Program) PruneUncalled(cand func(key string) bool) int {
+	g := P.CG()
+	var keep []*ssa.Function
+	dead := map[*ssa.Function]bool{}
+	for _, fn := range P.Funcs {
+		top := fn
+		for top.Parent() != nil {
+			top = top.Parent()
+		}
+		k := P.Key(top)
+		if cand(k) && len(g.In[top]) == 0 {
+			dead[fn] = true
+			continue
+		}
+		keep = append(keep, fn)
+	}
+	if len(dead) == 0 {
+		return 0
+	}
+	P.Funcs = keep
+	for fn := range dead {
+		for _, e := range g.Out[fn] {
+			in := g.In[e.Callee][:0:0]
+			for _, x := range g.In[e.Callee] {
+				if !dead[x.Caller] {
+					in = append(in, x)
+				}
+			}
+			g.In[e.Callee] = in
+		}
+		delete(g.Out, fn)
+	}
+	for k, fn := range P.ByKey {
+		if dead[fn] {
+			delete(P.ByKey, k)
+		}
+	}
+	return len(dead)
 }
